@@ -368,13 +368,62 @@ def typed_arm_rule(rule, c, functions, exceptions=None):
     return n
 
 
+def normalise_kernel_text(t):
+    """text of a C kernel made insensitive to local clean-ups before siblings are compared:
+    comments and numeric pointer casts removed, locals that always receive the same expression
+    replaced by it (copy propagation: `row = A->rowind[k]`, `int xs = (ix > 0 ? 0 : 1 - n)`),
+    induction variables of for loops renamed to one placeholder."""
+    t = cx.strip_pp(t)
+    t = re.sub(r"//[^\n]*", "", t)
+    t = re.sub(r"/\*.*?\*/", "", t, flags=re.S)
+    t = re.sub(r"\(\s*(?:double|complex_t|int_t|int|number)\s*\*?\s*\)", "", t)
+    body_start = t.find("{")
+    head, body = t[:body_start + 1], t[body_start + 1:]
+    for _round in range(4):
+        asg = {}
+        for m_ in re.finditer(r"(?:(?<=[;{}(,])|(?<=\bint)|(?<=\bint_t)|(?<=\*))\s*([A-Za-z_]\w*)\s*=\s*([^;,=][^;,]*?)\s*(?=[;,])", body):
+            v, rhs = m_.group(1), " ".join(m_.group(2).split())
+            asg.setdefault(v, set()).add(rhs)
+        # induction variables and variables updated in place are not constants
+        upd = set(re.findall(r"\b([A-Za-z_]\w*)\s*(?:\+\+|--|[-+*/]=)", body)) | set(re.findall(r"(?:\+\+|--)\s*([A-Za-z_]\w*)", body))
+        forv = set(re.findall(r"\bfor\s*\(\s*([A-Za-z_]\w*)\s*=", body))
+        done = False
+        for v, rhss in asg.items():
+            if len(rhss) != 1 or v in upd or v in forv:
+                continue
+            rhs = next(iter(rhss))
+            if re.search(r"\b%s\b" % re.escape(v), rhs) or "(" in rhs and re.search(r"\b(malloc|calloc|realloc)\b", rhs):
+                continue
+            # drop the defining statements, substitute elsewhere
+            body2 = re.sub(r"(?:\b(?:int|int_t|double|complex_t)\s*\*?\s*)?\b%s\s*=\s*%s\s*;" % (re.escape(v), re.escape(rhs).replace("\\ ", "\\s*")), "", body)
+            body2 = re.sub(r",\s*%s\s*=\s*%s(?=\s*[,;])" % (re.escape(v), re.escape(rhs).replace("\\ ", "\\s*")), "", body2)
+            if body2 == body:
+                continue
+            body = re.sub(r"\b%s\b" % re.escape(v), "(" + rhs + ")", body2)
+            done = True
+            break
+        if not done:
+            break
+    t = head + body
+    for v in set(re.findall(r"\bfor\s*\(\s*([A-Za-z_]\w*)\s*=", t)):
+        t = re.sub(r"\b%s\b" % re.escape(v), "_i", t)
+    return t
+
+
+def _canon_expr(txt):
+    """whitespace/parenthesis-insensitive form of a C expression (parsed when possible)"""
+    try:
+        return cx.unparse(cx.parse(txt)).replace(" ", "")
+    except cx.ParseError:
+        return re.sub(r"\s+", "", txt)
+
+
 def sibling_function_rule(rule, c, pairs, exceptions=None):
     """real / complex kernels of sparse.c written as separate functions address their arrays
     with the same set of index expressions."""
     def subs(fn):
         node = c.funcs[fn]
-        t = cx.strip_pp(c.text(node["b"], node["e"]))
-        t = re.sub(r"/\*.*?\*/", "", t, flags=re.S)
+        t = normalise_kernel_text(c.text(node["b"], node["e"]))
         out = set()
         for m_ in re.finditer(r"\b([A-Za-z_]\w*(?:->\w+)?)\s*\[", t):
             i, d = m_.end(), 1
@@ -384,11 +433,29 @@ def sibling_function_rule(rule, c, pairs, exceptions=None):
                 elif t[i] == "]":
                     d -= 1
                 i += 1
-            idx = re.sub(r"\s+", "", t[m_.end():i - 1])
+            idx = _canon_expr(t[m_.end():i - 1])
             arr = re.sub(r"^[dz]list$", "#list", m_.group(1))
             idx = re.sub(r"\b(DOUBLE|COMPLEX)\b", "ID", idx)
             out.add((arr, idx))
         return out
+    def ctrl(fn):
+        node = c.funcs[fn]
+        t = normalise_kernel_text(c.text(node["b"], node["e"]))
+        out = []
+        for m_ in re.finditer(r"\b(if|for|while)\s*\(", t):
+            i, dd = m_.end(), 1
+            while i < len(t) and dd:
+                if t[i] == "(":
+                    dd += 1
+                elif t[i] == ")":
+                    dd -= 1
+                i += 1
+            e_ = t[m_.end():i - 1]
+            e_ = ";".join(_canon_expr(x_) for x_ in e_.split(";")) if m_.group(1) == "for" else _canon_expr(e_)
+            e_ = re.sub(r"\b[dz]list\b", "#list", e_)
+            e_ = re.sub(r"\b(DOUBLE|COMPLEX)\b", "ID", e_)
+            out.append(m_.group(1) + "(" + e_ + ")")
+        return sorted(out), len(re.findall(r"\belse\b(?!\s*if)", t))
     n = 0
     for d, z in pairs:
         if d not in c.funcs or z not in c.funcs:
@@ -399,6 +466,32 @@ def sibling_function_rule(rule, c, pairs, exceptions=None):
         if exceptions and d in exceptions:
             rule.ok(key + ":named-exception", where, exceptions[d])
             continue
+        # semantic comparison first: the two kernels perform the same array accesses at every sampled
+        # iteration point (sa/ckernel.py); only kernels it cannot interpret fall back to the textual form
+        from . import ckernel as ck
+        try:
+            nenv, wit = ck.compare(c, d, z, 1500)
+            if nenv < 50:
+                raise ck.Unsupported("only %d environments evaluated" % nenv)
+            if wit is None:
+                rule.ok(key, where, "same array accesses at %d sampled iteration points" % nenv)
+                rule.ok("%s~%s:conditions and loop bounds" % (d, z), where, "semantic comparison")
+            else:
+                rule.violation(key, where,
+                               "the real and the complex kernel access different elements for %s: only %s %s, only %s %s"
+                               % (wit[0], d, wit[1], z, wit[2]), "same accesses", wit[1:])
+            continue
+        except ck.Unsupported as ex:
+            rule.observe("%s~%s: semantic comparison not applicable (%s); textual comparison used" % (d, z, ex))
+        ca, cb = ctrl(d), ctrl(z)
+        key2 = "%s~%s:conditions and loop bounds" % (d, z)
+        if ca == cb:
+            rule.ok(key2, where, "%d conditions / loop headers" % len(ca[0]))
+        else:
+            rule.violation(key2, where,
+                           "the real and the complex kernel branch or loop differently: only %s: %s; only %s: %s (bare else: %d vs %d)"
+                           % (d, [x for x in ca[0] if x not in cb[0]][:2], z, [x for x in cb[0] if x not in ca[0]][:2], ca[1], cb[1]),
+                           "same conditions and loop headers", "differ")
         a, b = subs(d), subs(z)
         if a == b:
             rule.ok(key, where, "%d subscript expressions" % len(a))
@@ -562,6 +655,188 @@ def signature_rule(rule, c, wrappers):
             rule.violation(key + ":unit-types", where, "format unit parsed into a variable of a different C type", "matching types", bad)
         else:
             rule.ok(key, where, "%d units, %d keywords, %d addresses, types match" % (len(units), len(w.kwlist or []), len(w.addr_vars)))
+
+
+ROUTINE_EXC = {
+    ("sysv", "dsytrf_"): "workspace query", ("sysv", "zsytrf_"): "workspace query",
+    ("hesv", "dsytrf_"): "workspace query", ("hesv", "zhetrf_"): "workspace query",
+    ("scal", "zdscal_"): "real scalar times complex vector", ("dot", "ddot_"): "complex dot composed of real dots (C17-R6)",
+    ("dotu", "ddot_"): "complex dot composed of real dots (C17-R6)", ("nrm2", "dznrm2_"): "BLAS name of the complex 2-norm",
+    ("asum", "dzasum_"): "BLAS name", ("iamax", "idamax_"): "BLAS name", ("iamax", "izamax_"): "BLAS name",
+    ("gemv", "dscal_"): "zero-dimension fallback (C17-R8)", ("gemv", "zscal_"): "zero-dimension fallback (C17-R8)",
+    ("gbmv", "dscal_"): "zero-dimension fallback (C17-R8)", ("gbmv", "zscal_"): "zero-dimension fallback (C17-R8)",
+    ("ger", "zgerc_"): "ger is the conjugated rank-1 update for complex data", ("geru", "dger_"): "real unconjugated = dger",
+}
+
+
+BUILD_UNITS = {"i": ("int", "char", "short", "unsigned short", "_Bool", "unsigned char"), "I": ("unsigned int",),
+               "l": ("long", "Py_ssize_t", "int_t", "ssize_t"), "k": ("unsigned long", "size_t"),
+               "n": ("Py_ssize_t", "long", "int_t", "ssize_t"), "L": ("long long",),
+               "d": ("double",), "f": ("double", "float"), "c": ("int", "char"), "C": ("int",), "b": ("int", "char"), "h": ("int", "short")}
+
+
+def buildvalue_rule(rule, c, functions):
+    """Py_BuildValue with a literal format: the number of units equals the number of
+    arguments and every integer / floating unit gets an argument of that C width (a 64-bit
+    int_t passed for 'i' is read as a 32-bit int: truncated values)."""
+    n = 0
+    for fn in functions:
+        for x in cf.walk(c.funcs[fn]):
+            if x.get("k") != "CallExpr" or cf.callee_name(x) != "Py_BuildValue":
+                continue
+            kids = x.get("c", [])[1:]
+            if not kids:
+                continue
+            f0 = cf.strip(kids[0])
+            if f0.get("k") != "StringLiteral":
+                continue
+            fmt = (f0.get("v") or "").strip('"')
+            units = [u for u in re.findall(r"[a-zA-Z]#?", fmt)]
+            args = kids[1:]
+            if not units and not args:
+                continue
+            n += 1
+            line = c.line_of(x["b"]) if x.get("b") is not None else 0
+            key = "%s:%s:Py_BuildValue(\"%s\")@%s" % (c.name, fn, fmt, re.sub(r"\s+", "", c.text(x["b"], x["b"] + 60).split(";")[0])[:50] if x.get("b") is not None else "")
+            where = "src/C/%s:%s:%d" % (c.name, fn, line)
+            if len(units) != len(args):
+                rule.violation(key, where, "%d format units for %d arguments" % (len(units), len(args)), len(units), len(args))
+                continue
+            bad = []
+            for u, a in zip(units, args):
+                allowed = BUILD_UNITS.get(u)
+                ty = (a.get("t") or "").replace("const ", "").strip()
+                if allowed is not None and ty not in allowed:
+                    bad.append("'%s' <- %s" % (u, ty))
+            if bad:
+                rule.violation(key, where, "format unit and argument type differ in width: %s (the value is read with the unit's C type)" % ", ".join(bad),
+                               "matching unit (int_t / Py_ssize_t -> 'l' or 'n')", bad)
+            else:
+                rule.ok(key, where, "%s <- %s" % (units, [a.get("t") for a in args]))
+    return n
+
+
+def subscript_offset_rule(rule, c, wrappers):
+    """A matrix argument X that comes with an offset parameter oX is only ever subscripted by
+    hand relative to that offset: every `MAT_BUF*(X)[e]` mentions oX."""
+    n = 0
+    for fn in wrappers:
+        w = cm.Wrapper(c, fn)
+        vars_ = set(w.addr_vars or [])
+        node = c.funcs[fn]
+        t = cx.strip_pp(c.text(node["b"], node["e"]))
+        t = re.sub(r"/\*.*?\*/", "", t, flags=re.S)
+        for m_ in re.finditer(r"MAT_BUF\w*\(\s*(\w+)\s*\)\s*\[", t):
+            X = m_.group(1)
+            if "o" + X not in vars_:
+                continue
+            i, d = m_.end(), 1
+            while i < len(t) and d:
+                if t[i] == "[":
+                    d += 1
+                elif t[i] == "]":
+                    d -= 1
+                i += 1
+            idx = re.sub(r"\s+", "", t[m_.end():i - 1])
+            n += 1
+            key = "%s:MAT_BUF(%s)[..] uses o%s" % (fn, X, X)
+            where = "src/C/%s:%s:%d" % (c.name, fn, c.line_of(node["b"]) + t[:m_.start()].count("\n"))
+            if re.search(r"\bo%s\b" % re.escape(X), idx):
+                rule.ok(key, where, idx)
+            else:
+                rule.violation(key, where, "`%s` is subscripted with `%s`, ignoring its offset argument o%s: with a nonzero offset the wrong entries are accessed"
+                               % (X, idx, X), "o%s + .." % X, idx)
+    return n
+
+
+def routine_name_rule(rule, c, wrappers):
+    """Each wrapper hands its data to the library routine of its own name: the real arm to
+    d<name>_ (or the real counterpart of a Hermitian/unitary name: he->sy, hb->sb, hp->sp,
+    un->or, her->syr), the complex arm to z<name>_."""
+    ext = set(c.externs)
+    n = 0
+    for fn in wrappers:
+        arms = arm_calls(c, c.funcs[fn], ext)
+        for (sw, lab), calls in arms.items():
+            if lab not in ("DOUBLE", "COMPLEX"):
+                continue
+            for r_ in sorted({x[0] for x in calls}):
+                if not re.fullmatch(r"[a-z]\w+_", r_):
+                    continue
+                n += 1
+                base = r_[1:-1]
+                cands = {fn}
+                if lab == "DOUBLE":
+                    cands |= {re.sub(r"^he", "sy", fn), re.sub(r"^hb", "sb", fn), re.sub(r"^hp", "sp", fn), re.sub(r"^un", "or", fn)}
+                key = "%s:%s arm calls %s" % (fn, lab, r_)
+                where = "src/C/%s:%s" % (c.name, fn)
+                if base in cands and r_[0] == ("d" if lab == "DOUBLE" else "z"):
+                    rule.ok(key, where)
+                elif (fn, r_) in ROUTINE_EXC:
+                    rule.ok(key + ":named-exception", where, ROUTINE_EXC[(fn, r_)])
+                else:
+                    rule.violation(key, where, "the %s arm of %s calls `%s`, not the routine of its own name (%s%s_)"
+                                   % (lab, fn, r_, "d" if lab == "DOUBLE" else "z", sorted(cands)[0]), "%s%s_" % ("d" if lab == "DOUBLE" else "z", fn), r_)
+    return n
+
+
+def parse_target_rule(rule, c, wrappers):
+    """Every variable whose address is handed to PyArg_Parse* is *read* afterwards before it
+    is overwritten (an assignment `v = E` with E not mentioning v as the first reference after
+    the parse throws the caller's value away; the default idiom `if (v < 0) v = ..` reads v
+    first), and a wrapper parses its arguments once."""
+    n = 0
+    for fn in wrappers:
+        w = cm.Wrapper(c, fn)
+        if w.parse_call is None:
+            continue
+        node = c.funcs[fn]
+        where = "src/C/%s:%s" % (c.name, fn)
+        txt = cx.strip_pp(c.text(node["b"], node["e"]))
+        txt = re.sub(r"/\*.*?\*/", "", txt, flags=re.S)
+        nparse = len(re.findall(r"\bPyArg_ParseTuple(?:AndKeywords)?\s*\(\s*args\b", txt))    # of the call's own argument tuple
+        n += 1
+        if nparse > 1:
+            rule.violation("%s:one parse call" % fn, where,
+                           "the arguments are parsed %d times in the analysed configuration: the later call re-stores raw values over "
+                           "validated ones (and may use another format)" % nparse, "one PyArg_Parse* call", nparse)
+        else:
+            rule.ok("%s:one parse call" % fn, where)
+        par = {}
+        st = [node]
+        while st:
+            x = st.pop()
+            for ch in x.get("c", []):
+                par[id(ch)] = x
+                st.append(ch)
+        pb, pe = w.parse_call.get("b") or 0, w.parse_call.get("e") or 0
+        pspan = c.paren_after(pb) if w.parse_call.get("b") is not None else None
+        if pspan:
+            pe = pspan[1]
+        for v in w.addr_vars:
+            refs = [x for x in cf.walk(node) if x.get("k") == "DeclRefExpr" and x.get("ref") == v and x.get("b") is not None
+                    and x["b"] > pe and not x.get("bm")]
+            refs += [x for x in cf.walk(node) if x.get("k") == "DeclRefExpr" and x.get("ref") == v and x.get("b") is not None
+                     and x["b"] > pe and x.get("bm")]
+            refs.sort(key=lambda r_: r_["b"])
+            n += 1
+            key = "%s:parsed `%s` is read" % (fn, v)
+            if not refs:
+                rule.violation(key, where, "`%s` is parsed from the arguments and never used: the caller's value has no effect" % v,
+                               "a read of %s" % v, "no reference after the parse call")
+                continue
+            r_ = refs[0]
+            p_ = par.get(id(r_))
+            while p_ is not None and p_.get("k") in ("ImplicitCastExpr", "ParenExpr", "CStyleCastExpr"):
+                r_, p_ = p_, par.get(id(p_))
+            if p_ is not None and p_.get("k") == "BinaryOperator" and p_.get("op") == "=" and p_["c"][0] is r_ \
+                    and not any(x.get("k") == "DeclRefExpr" and x.get("ref") == v for x in cf.walk(p_["c"][1])):
+                rule.violation(key, where + ":%d" % c.line_of(refs[0]["b"]),
+                               "`%s` is overwritten right after being parsed, before anything reads it: the caller's value is thrown away" % v,
+                               "a read of %s first" % v, c.text(p_["b"], p_["b"] + 60).split(";")[0] if p_.get("b") is not None else "assignment")
+            else:
+                rule.ok(key, where)
+    return n
 
 
 def naming_rule(rule, c, wrappers):
